@@ -37,3 +37,8 @@ def tripwire_moved_from(info, fn, o):
 def rcu_null_zombie(info, fn, o):
     r = run_cpp('rcu_null_zombie.cpp')
     return r
+
+
+@replay.register(r'soh', r'.*removeObject__std_function.*')
+def soh_remove_pred(info, fn, o):
+    return run_cpp('soh_remove_pred.cpp')
